@@ -257,3 +257,27 @@ def overflow_pages(data, u):
         if data[(n - 1) * u] not in (2, 5, 10, 13):
             res.append(n)
     return res
+
+
+def leaf_layout(data, root, u):
+    """traversal-order layout of a b-tree: (leaves, interior_positions) where leaves =
+    [(first_row_index, end_row_index, is_rightmost_child, depth)] and interior_positions =
+    0-based row indexes of entries stored in interior index pages"""
+    leaves, interior = [], []
+    pos = [0]
+    def walk(n, d, rightmost):
+        if d > 40:
+            return
+        t, nc, rm, cells = page_info(data, n, u)
+        pg = read_page(data, n, u)
+        if t in (2, 5):
+            for c in cells:
+                walk(struct.unpack(">I", pg[c:c + 4])[0], d + 1, False)
+                if t == 2:
+                    interior.append(pos[0]); pos[0] += 1
+            walk(rm, d + 1, True)
+        else:
+            leaves.append((pos[0], pos[0] + nc, rightmost, d))
+            pos[0] += nc
+    walk(root, 1, False)
+    return leaves, interior
